@@ -11,21 +11,25 @@ from tranpsim.history import account_cache_writes, stale_transitive_files
 from tranpsim.persist import Project, canon_trace, resolve_fault
 
 KF_DEP = 'C06/dependency-edit-not-regenerated'
-_HEADER = re.compile(r'^// @tranp\.meta: (\{.*\})\s*$')
 
 
 def header_of(text: str | None) -> dict[str, Any] | None:
-	"""The harness's own reading of the first line (never MetaHeader)."""
+	"""The harness's own reading of the header (never MetaHeader): the JSON object that follows the first '@tranp.meta:' tag,
+	whatever comment syntax surrounds it."""
 	if not text:
 		return None
-	first = text.split('\n', 1)[0]
-	m = _HEADER.match(first)
-	if not m:
+	at = text.find('@tranp.meta:')
+	if at < 0:
+		return None
+	brace = text.find('{', at)
+	eol = text.find('\n', at)
+	if brace < 0 or (eol >= 0 and brace > eol):
 		return None
 	try:
-		return json.loads(m.group(1))
+		obj, _ = json.JSONDecoder().raw_decode(text[brace:])
 	except json.JSONDecodeError:
 		return None
+	return obj if isinstance(obj, dict) else None
 
 
 def observe_headers(app: Any, seams: Any) -> dict[str, Any]:
